@@ -2472,7 +2472,7 @@ fn case_tweedie_random(c: &mut Case) -> Outcome {
         // sufficient decrease of the documented objective (saturated link / overflow)
         let stp_min = fl.eps().sqrt();
         let gg: f64 = e.grad.iter().map(|v| v * v).sum();
-        let mut blocked = at_start;
+        let mut blocked = true;
         let mut s_try = stp_min;
         while blocked && s_try <= 1.0 {
             let wt: Vec<f64> = (0..p).map(|k| w[k] - s_try * e.grad[k]).collect();
@@ -2487,6 +2487,12 @@ fn case_tweedie_random(c: &mut Case) -> Outcome {
             bail!("C12/tweedie/start-point-returned-unchanged", {"A_ratio": jd.g_inf / jd.thr, "case": ctxj, "grad_inf": jd.g_inf,
                 "threshold": jd.thr, "G": e.g_scale, "grad": fvec(&e.grad), "coef": fvec(&w), "intercept": b,
                 "start_intercept": b_start, "objective": e.j});
+        }
+        if blocked && fl != Fl::F64 {
+            // same limitation away from the start point: from the returned point no admissible
+            // step along steepest descent lowers the documented objective sufficiently
+            bail!("C12/tweedie/f32-line-search-blocked-at-returned-point", {"A_ratio": jd.g_inf / jd.thr, "case": ctxj, "grad_inf": jd.g_inf,
+                "threshold": jd.thr, "G": e.g_scale, "grad": fvec(&e.grad), "coef": fvec(&w), "intercept": b, "objective": e.j});
         }
         bail!("C12/tweedie/not-stationary", {"A_ratio": jd.g_inf / jd.thr, "case": ctxj, "grad_inf": jd.g_inf, "threshold": jd.thr, "tol": cfg.tol_eff(),
             "G": e.g_scale, "grad": fvec(&e.grad), "coef": fvec(&w), "intercept": b, "objective": e.j});
